@@ -6,16 +6,27 @@ from domhist import fmt_exp, fmt_cst, gen_exp, gen_cst, ev, holds, tdiv, trem, p
 
 # ------------------------------------------------------------------ generation
 
-def rand_stmt(rng, nv, small=True, allow=("assign", "arith", "bit", "assume", "havoc", "select")):
+def rand_stmt(rng, nv, small=True, allow=("assign", "arith", "bit", "assume", "havoc", "select"), bwd_safe=False):
     k = rng.choices(["assign", "arith", "bit", "assume", "havoc", "select"], [8, 8, 1, 3, 1, 1])[0]
-    if k not in allow:
+    if k not in allow or (bwd_safe and k == "select"):
         k = "assign"
     if k == "assign":
-        return "assign %d %s" % (rng.randrange(nv), fmt_exp(gen_exp(rng, nv, small=True)))
+        x = rng.randrange(nv)
+        e = gen_exp(rng, nv, small=True)
+        if bwd_safe:
+            e = ([(c, v) for (c, v) in e[0] if v != x], e[1])
+        return "assign %d %s" % (x, fmt_exp(e))
     if k == "arith":
         op = rng.choice(["add", "add", "sub", "mul", "sdiv", "srem"])
-        z = ("v %d" % rng.randrange(nv)) if rng.random() < 0.4 else ("k %d" % rng.choice([1, 1, 2, 3, -1, -2, 5, 0, 7]))
-        return "arith %s %d %d %s" % (op, rng.randrange(nv), rng.randrange(nv), z)
+        x, y = rng.randrange(nv), rng.randrange(nv)
+        if rng.random() < 0.4:
+            zv = rng.randrange(nv)
+            if bwd_safe and op in ("add", "sub") and x in (y, zv):
+                return "arith %s %d %d k %d" % (op, x, y, rng.choice([1, 2, 3, -1]))
+            z = "v %d" % zv
+        else:
+            z = "k %d" % rng.choice([1, 1, 2, 3, -1, -2, 5, 0, 7])
+        return "arith %s %d %d %s" % (op, x, y, z)
     if k == "bit":
         op = rng.choice(["and", "or", "xor", "shl", "ashr"])
         z = "k %d" % rng.choice([0, 1, 2, 3, 7])
@@ -49,7 +60,7 @@ def gen_program(rng, opts=None):
 
     def fill(b, n=None):
         for _ in range(rng.randint(0, 3) if n is None else n):
-            blocks[b].append(rand_stmt(rng, nv))
+            blocks[b].append(rand_stmt(rng, nv, bwd_safe=opts.get("bwd_safe", False)))
         maybe_assert(b)
 
     def build(cur, depth):
@@ -374,3 +385,124 @@ def nontrivial(line, ans):
         if pre != "bot" and any(i not in ((None, None), None) for i in pre):
             good += 1
     return good >= 2 and any(a >= b for a, b in P["edges"])
+
+
+# ------------------------------------------------------------------ backward oracle (C11)
+
+def parse_bwd_tables(ans, nb):
+    parts = [p.strip() for p in ans.split(" ; ")]
+    tabs = []
+    for p in parts[:nb]:
+        m = re.match(r"^finv=(.*) pre=(.*)$", p)
+        if not m:
+            return None
+        tabs.append((parse_state(m.group(1)), parse_state(m.group(2))))
+    return tabs
+
+
+def oracle_bwd(line, ans, rng=None):
+    """C11: every state on a concrete execution that goes on to violate an assertion (error mode) /
+    to finish the exit block in a final state (good mode) must be inside the precondition of its block"""
+    if ans in ("ABORT", "MISSING") or ans.startswith("HARNESS"):
+        return "%s: the analysis aborted" % line
+    P = parse(line)
+    tabs = parse_bwd_tables(ans, P["nb"])
+    if tabs is None:
+        return None
+    good = P["opts"].get("mode", "error") == "good"
+    finals = []
+    for sct in line.split(" | "):
+        t = sct.split()
+        if t and t[0] == "G":
+            k = Tok(t[1:])
+            while k.more(): finals.append(p_cst(k))
+    r0 = random.Random(zlib.crc32(line.encode()))
+    succ = {}
+    for a, b in P["edges"]:
+        succ.setdefault(a, [])
+        if b not in succ[a]: succ[a].append(b)
+
+    def inside(st, s):
+        if st == "bot": return False
+        return all(in_itv(st[v], s[v]) for v in range(min(len(st), len(s))) if st[v] is not None)
+
+    for _ in range(150):
+        s = [r0.choice(POOL) for _ in range(P["nv"])]
+        b = 0; trace = []; outcome = None
+        for step in range(100):
+            trace.append((b, list(s)))
+            blocked = False
+            for st in P["blocks"][b]:
+                r = exec_stmt(st, s, r0)
+                if r[0] == "fail":
+                    outcome = "fail"; break
+                if r[0] != "ok":
+                    blocked = True; break
+                s = r[1]
+            if outcome or blocked: break
+            if b == P["exit"]:
+                if good and all(holds(c, s) for c in finals): outcome = "good"
+                break
+            nxt = succ.get(b, [])
+            if not nxt: break
+            b = r0.choice(nxt)
+        if (outcome == "fail" and not good) or (outcome == "good" and good):
+            for (bb, ss) in trace:
+                if not inside(tabs[bb][1], ss):
+                    return ("%s: an execution visiting b%d with store %s %s, but the reported necessary precondition of b%d is %s"
+                            % (line, bb, ss, "goes on to violate an assertion" if not good else "reaches the exit in a final state", bb, tabs[bb][1]))
+    return None
+
+
+def nontrivial_bwd(line, ans):
+    """rule: at least one block has a precondition that is neither bottom nor top"""
+    P = parse(line)
+    tabs = parse_bwd_tables(ans, P["nb"])
+    if not tabs: return False
+    return any(pre != "bot" and any(i not in ((None, None), None) for i in pre) for _, pre in tabs)
+
+
+# ------------------------------------------------------------------ verdict oracle (C02)
+
+def parse_verdicts(ans):
+    if "checks=" not in ans:
+        return None
+    body = ans.split("checks=")[1].strip()
+    out = {}
+    i = 1
+    for part in body.replace("-", "-,").split(","):
+        part = part.strip()
+        if part == "":
+            continue
+        out[i] = part
+        i += 1
+    return out
+
+
+def oracle_verdicts(line, ans, rng=None):
+    """C02: no execution reaches a 'safe' assertion with a false condition, none reaches an
+    'unreachable' one"""
+    if ans in ("ABORT", "MISSING") or ans.startswith("HARNESS"):
+        return "%s: the analysis aborted" % line
+    P = parse(line)
+    V = parse_verdicts(ans)
+    if not V:
+        return None
+    r0 = random.Random(zlib.crc32(line.encode()) ^ 0x5bd1)
+
+    def on_assert(b, st, s, ok):
+        v = V.get(st[2], "")
+        if "U" in v:
+            return "%s: assertion %d (in b%d) was classified unreachable but an execution reaches it with store %s" % (line, st[2], b, s)
+        if "S" in v and not ok:
+            return "%s: assertion %d (in b%d) was classified safe but an execution reaches it with store %s, where it is false" % (line, st[2], b, s)
+    return run_concrete(P, r0, nruns=120, on_assert=on_assert)
+
+
+def nontrivial_verdicts(line, ans):
+    """rule: at least one assertion is classified safe or unreachable and one is a warning, or the program has a loop"""
+    V = parse_verdicts(ans)
+    if not V:
+        return False
+    letters = "".join(V.values())
+    return ("S" in letters or "U" in letters) and len(V) >= 1
